@@ -195,9 +195,8 @@ def pow2(I, k):
         if e.branch(kz < 0):
             raise PyRaise(ValueError("negative shift count"), implicit=True)
         raise Undecided("shift amount above 136")
-    p = e.newint("pow2")
-    e.assume(z3.Or([z3.And(kz == i, p.z == (1 << i)) for i in range(137)]))
-    return p
+    # multi-way decision over the feasible shift amounts: the result is concrete on each path
+    return 1 << e.choose_value(kz, max_values=140)
 
 
 def floordiv(I, a, b):
@@ -412,6 +411,12 @@ def bvview(I, v, w, in_range=False):
     e = I.e
     known = in_range or (v.rng is not None and 0 <= v.rng[0] and v.rng[1] < (1 << w))
     vz = v.z if known else v.z % (1 << w)
+    if w > WIDE:
+        # a value the path condition determines uniquely is used as a constant (the uninterpreted bridge below
+        # would lose its bits)
+        u = e.unique_value(vz)
+        if u is not None:
+            return z3.BitVecVal(u % (1 << w), w)
     if w > WIDE:
         b2i, i2b = bridge(w)
         x = i2b(vz)
@@ -1187,8 +1192,10 @@ def symmethod(I, o, name, args, kwargs):
             L = args[0] if args else kwargs.get("length", 1)
             order = args[1] if len(args) > 1 else kwargs.get("byteorder", "big")
             signed = kwargs.get("signed", False)
-            if is_sym(L) or signed:
-                raise Undecided("to_bytes with symbolic length / signed")
+            if signed:
+                raise Undecided("to_bytes signed")
+            if is_sym(L):
+                L = e.choose_value(zint(L), max_values=70)
             if not e.branch(z3.And(o.z >= 0, o.z < (1 << (8 * L)))):
                 raise PyRaise(OverflowError("int too big to convert"), implicit=True)
             if L == 0:
@@ -1253,7 +1260,24 @@ def symmethod(I, o, name, args, kwargs):
                 raise Undecided("startswith symbolic prefix")
             return simp_bool(z3.And(o.ln >= n, *[o.at(z3.IntVal(k)) == pre.at(z3.IntVal(k)) for k in range(n)]))
         if name == "find":
-            raise Undecided("bytes.find on symbolic bytes")
+            sub = as_sbytes(args[0])
+            m = sub.concrete_len()
+            if m is None or m == 0:
+                raise Undecided("bytes.find with symbolic/empty pattern")
+            start = zint(args[1]) if len(args) > 1 and args[1] is not None else z3.IntVal(0)
+            end = zint(args[2]) if len(args) > 2 and args[2] is not None else o.ln
+            if not e.branch(z3.And(start >= 0, end >= 0), likely=True):
+                raise Undecided("bytes.find with negative bounds")
+            end = z3.If(end > o.ln, o.ln, end)
+            for i in range(0, 80):
+                if not e.branch(i + m <= end):
+                    return -1
+                if not e.branch(i >= start):
+                    continue
+                hit = z3.And([o.at(z3.IntVal(i + k)) == sub.at(z3.IntVal(k)) for k in range(m)])
+                if e.branch(hit):
+                    return i
+            raise Undecided("bytes.find: message longer than 80 bytes")
     if isinstance(o, SNumText):
         if name == "strip":
             return o
@@ -1346,6 +1370,15 @@ def container_method(I, o, name, args, kwargs):
             raise Undecided("concrete bytearray extended with symbolic bytes (use H.bytearray)")
         if not all_concrete(args):
             return symmethod(I, SBytes.const(o, isinstance(o, bytearray)), name, args, kwargs)
+    if isinstance(o, int) and not isinstance(o, bool) and name == "to_bytes":
+        L = args[0] if args else kwargs.get("length", 1)
+        order = args[1] if len(args) > 1 else kwargs.get("byteorder", "big")
+        if is_sym(L):
+            L = e.choose_value(zint(L), max_values=70)
+        try:
+            return o.to_bytes(L, order, signed=kwargs.get("signed", False))
+        except Exception as ex:
+            raise PyRaise(ex, implicit=True)
     if isinstance(o, str):
         if name == "join":
             parts = iterate(I, args[0])
